@@ -4,6 +4,7 @@ import (
 	"fmt"
 	"go/token"
 	"go/types"
+	"sort"
 	"strings"
 
 	"golang.org/x/tools/go/ssa"
@@ -527,7 +528,7 @@ func counterMatches(w *World, v ssa.Value, want string) bool {
 
 func c10R1(w *World, r *Report) {
 	const rule = "C10.R1"
-	r.rule(rule, "every limit is a live, non-strict trigger whose true edge always reaches flushBufferedData before processIngestRequest returns; counters advance per buffered row", 9)
+	r.rule(rule, "every limit is a live, non-strict trigger whose true edge always reaches flushBufferedData before processIngestRequest returns; counters advance per buffered row", 11)
 	fn := fnOrUndecided(w, r, rule, "BloomSearchEngine.processIngestRequest")
 	if fn == nil {
 		return
@@ -597,9 +598,21 @@ func c10R1(w *World, r *Report) {
 		}
 		r.check(bad == "", rule, "trigger:"+l.limit, w.pos(fn.Pos()), "non-strict comparison on the matching counter; its true edge always reaches flushBufferedData", "after config."+l.limit+" is reached, processIngestRequest can return (at "+bad+") without calling flushBufferedData")
 	}
-	// counters advance once per buffered row
+	// counters advance once per buffered row: the only store to each counter in
+	// this function is a self-add inside the per-row loop (the innermost loop
+	// around the row's indexRow call); row counters add 1, the two byte counters
+	// add the same quantity
+	var rowLoop *ssa.BasicBlock
+	for _, in := range w.callSitesIn(fn, "bloomEntrySets.indexRow") {
+		rowLoop = innermostHeader(in.Block())
+	}
+	if rowLoop == nil {
+		r.undecided(rule, "counter:row-loop", w.pos(fn.Pos()), "per-row loop (around bloomEntrySets.indexRow) not found")
+		return
+	}
+	added := map[string]string{}
 	for _, cnt := range []string{"p:bufferedRowCount", "p:bufferedBytes", ".rowCount", ".uncompressedSize"} {
-		n := 0
+		n, other := 0, 0
 		eachInstr(fn, func(in ssa.Instruction) {
 			st, ok := in.(*ssa.Store)
 			if !ok {
@@ -614,21 +627,30 @@ func c10R1(w *World, r *Report) {
 			}
 			b, isAdd := st.Val.(*ssa.BinOp)
 			if !isAdd || b.Op != token.ADD {
+				other++
 				return
 			}
-			lv := w.leaves(b)
+			var rest []string
 			self := false
-			for l := range lv {
+			for l := range w.leaves(b) {
 				if l == deref("&"+strings.TrimPrefix(p, "&")) || l == "*"+p || strings.HasSuffix(l, strings.TrimPrefix(cnt, "p:")) {
 					self = true
+				} else {
+					rest = append(rest, l)
 				}
 			}
-			if self && loopOf(st.Block()) != nil {
+			if self && innermostHeader(st.Block()) == rowLoop {
 				n++
+				sort.Strings(rest)
+				added[cnt] = strings.Join(rest, " + ")
+			} else {
+				other++
 			}
 		})
-		r.check(n == 1, rule, "counter:"+cnt, w.pos(fn.Pos()), "advanced once inside the per-row loop", fmt.Sprintf("counter %s is advanced at %d sites inside the row loop (expected exactly one += per buffered row): the trigger no longer tracks what is buffered", cnt, n))
+		r.check(n == 1 && other == 0, rule, "counter:"+cnt, w.pos(fn.Pos()), "advanced once inside the per-row loop, not written elsewhere", fmt.Sprintf("counter %s is advanced at %d sites inside the per-row loop and written at %d other sites (expected exactly one += per buffered row and no other write here): the trigger no longer tracks what is buffered", cnt, n, other))
 	}
+	r.check(added["p:bufferedRowCount"] == "const:1" && added[".rowCount"] == "const:1", rule, "counter:rows+=1", w.pos(fn.Pos()), "row counters add 1 per row", fmt.Sprintf("row counters add (%s) and (%s) per buffered row instead of 1", added["p:bufferedRowCount"], added[".rowCount"]))
+	r.check(added["p:bufferedBytes"] != "" && added["p:bufferedBytes"] == added[".uncompressedSize"] && strings.Contains(added["p:bufferedBytes"], "len("), rule, "counter:bytes+=len(row)+prefix", w.pos(fn.Pos()), "byte counters add the row's length-prefixed size", fmt.Sprintf("byte counters add (%s) to the buffer and (%s) to the partition: they no longer agree on the row's size", added["p:bufferedBytes"], added[".uncompressedSize"]))
 }
 
 func c10R2(w *World, r *Report) {
